@@ -19,6 +19,11 @@ import (
 // in genbank or gff version 3 format
 func Variants(samIn, refIn io.Reader, refFromFile bool, annoIn io.Reader, annoSuffix string, out io.Writer, start, end int, aggregate bool, threshold float64, appendSNP bool, threads int) error {
 
+	// a worker pool needs at least one worker (--threads 0 used to hang, negative values to panic)
+	if threads < 1 {
+		threads = 1
+	}
+
 	var ref fastaio.EncodedFastaRecord
 	if refFromFile {
 		refs, err := fastaio.ReadEncodeAlignmentToList(refIn, false)
